@@ -124,7 +124,7 @@ func (m *ConvMon) End(w *World) {
 			if sr == nil || sr.Gone || sr.Kind == "error" || m.Skip[key] {
 				continue
 			}
-			if sr.Dirty {
+			if sr.Dirty || sr.NoConv {
 				continue // scenario left a silent mutation unannounced
 			}
 			want, got := "", ""
@@ -170,7 +170,7 @@ func (m *ConvMon) End(w *World) {
 				key += "?" + r.Query
 			}
 			sr := w.Svc.Res[key]
-			if sr == nil || sr.Gone || sr.Kind == "error" || sr.Dirty || m.Skip[key] {
+			if sr == nil || sr.Gone || sr.Kind == "error" || sr.Dirty || sr.NoConv || m.Skip[key] {
 				continue
 			}
 			want := ""
